@@ -157,8 +157,8 @@ func vf02Record(msg []byte) []byte {
 // ---- grammar-preserving rewrites ----
 
 type vf02Rewrite struct {
-	Desc        []string
-	ECHPayload  int // -1 = no ECH rewritten
+	Desc          []string
+	ECHPayload    int // -1 = no ECH rewritten
 	Representable bool
 }
 
